@@ -143,6 +143,10 @@ def layout(d, how):
 
 def np_raster(j, negate=False):
     data = np.array([[val(v) for v in row] for row in j["X"]], dtype=np.float64)
+    # j["offset"]: the job's X holds small deviations, the raster handed to the library is offset + X (elevation-like
+    # data: large offset, small spread); the spec judges on the deviations (variance, z-scores are translation
+    # invariant; mean / min / max / sum are shifted by the offset in the judge)
+    data = data + float(j.get("offset", 0))
     if negate:
         data = -data
     dt = j.get("dtype", "float64")
@@ -177,12 +181,14 @@ def comp(d, j):
     return np.asarray(d)
 
 
-def vmax_of(j):
+def vmax_of(j, dev=False):
+    """largest magnitude in the raster (dev=True: of the deviations from the job's offset)"""
     m = 1.0
+    off = 0.0 if dev else float(j.get("offset", 0))
     for row in j["X"]:
         for v in row:
             if v != "nan":
-                m = max(m, abs(val(v)))
+                m = max(m, abs(val(v) + off))
     return m
 
 
@@ -204,6 +210,7 @@ def job_apply(j):
     k = kernel_of(j, j["K"])
     ones = int(min(max(1, int(np.sum(np.array(j["K"]) == 1))), r.shape[0] * r.shape[1]))
     vm = vmax_of(j)
+    dm = vmax_of(j, dev=True)           # variance / std do not see the offset
     xd = den_of(j)
     cells = k.shape[0] * k.shape[1]
     outs, raw = [], {}
@@ -228,22 +235,24 @@ def job_apply(j):
         if name in ("mean",):
             D, tol, sq = ones * xd, 4 * ulp32(ones * vm), False
         elif name == "var":
-            D, tol, sq = (ones * xd) ** 2, 4 * ulp32(ones * vm * vm), False
+            D, tol, sq = (ones * xd) ** 2, 4 * ulp32(ones * dm * dm), False
         elif name == "std":
-            D, tol, sq = (ones * xd) ** 2, 4 * ulp32(max(vm, 1.0)) + 1e-7, True
+            D, tol, sq = (ones * xd) ** 2, 4 * ulp32(max(dm, 1.0)) + 1e-7, True
         elif name == "wsum":
             D, tol, sq = xd, 4 * ulp32(cells * cells * vm), False
         else:
             D, tol, sq = xd, 4 * ulp32(max(ones * vm, 1000.0 if name == "shape" else 1.0)), False
         outs.append({"red": name, "out": enc_matrix(a, D, tol, sq)})
         raw[name] = [[None if np.isnan(v) else float(v) for v in row] for row in a]
-    return {"kind": "apply", "X": [[qval(v) for v in row] for row in j["X"]], "K": j["K"], "outs": outs,
+    return {"kind": "apply", "offset": int(j.get("offset", 0)),
+            "X": [[qval(v) for v in row] for row in j["X"]], "K": j["K"], "outs": outs,
             "raw": raw, "out_dtype": str(a.dtype)}
 
 
 def job_mean(j):
     r = raster(j)
-    excl = [val(e) for e in j["excl"]]
+    off = float(j.get("offset", 0))
+    excl = [val(e) + (0.0 if e == "nan" else off) for e in j["excl"]]
     passes = j["passes"]
     kw = {}
     if not j.get("default_excl"):
@@ -255,7 +264,8 @@ def job_mean(j):
     # (passes = 3 is only generated for rasters whose windows have 2, 3, 4 or 6 cells: denominators stay tiny)
     D = den_of(j) * (1, 9, 22680)[passes] if passes <= 2 else den_of(j) * 10 ** 5
     tol = 64 * 2.3e-16 * vmax_of(j)
-    return {"kind": "mean", "X": [[qval(v) for v in row] for row in j["X"]], "passes": passes,
+    return {"kind": "mean", "offset": int(j.get("offset", 0)),
+            "X": [[qval(v) for v in row] for row in j["X"]], "passes": passes,
             "only_excl": int(j.get("only_excl", 0)),
             "excl": [qval("nan" if (isinstance(e, str)) else e) for e in j["excl"]],
             "out": enc_matrix(o, D, tol), "raw": [[None if np.isnan(v) else float(v) for v in row] for row in o]}
